@@ -735,6 +735,15 @@ func (vc *VC) execDynCall(st *State, call *ssa.CallCommon, instr ssa.Instruction
 		key = vc.key + "#" + x.Name()
 	case *ssa.FreeVar:
 		key = vc.key + "#" + x.Name()
+	case *ssa.UnOp:
+		// a function value loaded from a struct field: contract "fieldfunc (T).Field"
+		if fa, ok := x.X.(*ssa.FieldAddr); ok && x.Op == token.MUL {
+			if pt, ok := types.Unalias(fa.X.Type()).Underlying().(*types.Pointer); ok {
+				if stt, ok := types.Unalias(pt.Elem()).Underlying().(*types.Struct); ok {
+					key = "fieldfunc " + typeKey(pt.Elem()) + "." + stt.Field(fa.Field).Name()
+				}
+			}
+		}
 	}
 	var c *Contract
 	if key != "" {
@@ -1271,7 +1280,12 @@ func (vc *VC) siteHooks(st *State, key string, instr ssa.Instruction, before boo
 	}
 	vc.curInstr = instr
 	match := func(pat string, ord int) bool {
-		if !strings.Contains(key, pat) {
+		if strings.HasPrefix(pat, "@") {
+			// @name: a call through the function value held by the parameter / variable "name"
+			if key != "dynamic:"+pat[1:] {
+				return false
+			}
+		} else if !strings.Contains(key, pat) {
 			return false
 		}
 		return ord == 0 || vc.staticOrdinal(instr) == ord
